@@ -119,7 +119,13 @@ def _gen_dt(rng, name):
 
 
 def _gen_pairs(rng, kinds=("header", "parameter")):
-    return [["pair", rng.choice(kinds), _val(rng, 1, 10), _val(rng, 0, 12)] for _ in range(rng.choice([0, 1, 2, 3]))]
+    out = []
+    for _ in range(rng.choice([0, 1, 2, 3, 4])):
+        k = _val(rng, 1, 10)
+        if out and rng.random() < 0.3:
+            k = rng.choice(out)[2]          # the same name again (a header sent twice, with the same or another value)
+        out.append(["pair", rng.choice(kinds), k, rng.choice(out)[3] if out and rng.random() < 0.15 else _val(rng, 0, 12)])
+    return out
 
 
 def _gen_block(rng, alias=None):
@@ -429,10 +435,21 @@ def build_block(cp, alias, items, style, attach=None):
         b = klass()
         if style == "topdown" and attach_to is not None:
             attach_to(b)
+        grouped = []
         for it in its:
+            # consecutive pairs of one kind may be handed over in ONE call (a list of pairs) - every second such group is
+            if it[0] == "pair" and grouped and grouped[-1][0] == "pairs" and grouped[-1][1] == it[1]:
+                grouped[-1][2].append((it[2], it[3]))
+            elif it[0] == "pair" and callable(getattr(b, it[1], None)) and (len(it[2]) + len(its)) % 2 == 0:
+                grouped.append(["pairs", it[1], [(it[2], it[3])]])
+            else:
+                grouped.append(it)
+        for it in grouped:
             k = it[0]
             if k == "set":
                 b.set_option(it[1], it[2].encode() if len(it) > 3 else it[2])
+            elif k == "pairs":
+                getattr(b, it[1])(it[1], list(it[2]))
             elif k == "pair":
                 # the public spelling where the block class has one (HttpOptionsBlock.header/.parameter,
                 # HttpConfigBlock.header, ...strrep), the generic pair builder otherwise
@@ -463,9 +480,13 @@ def build_block(cp, alias, items, style, attach=None):
                     gb._enable(GATE_ALIAS[g], True)
                 b.set_config_block("beacon_gate", gb)
             elif k == "xform86":
-                tb = cp.StageTransformBlock()
-                for name, a in it[1]:
-                    tb.set_option(name, unhx(a))
+                if style == "kwargs" and len({n_ for n_, _ in it[1]}) == len(it[1]):
+                    # (keyword order = statement order)
+                    tb = cp.StageTransformBlock(**{n_: unhx(a_) for n_, a_ in it[1]})
+                else:
+                    tb = cp.StageTransformBlock()
+                    for name, a in it[1]:
+                        tb.set_option(name, unhx(a))
                 b.set_config_block("transform_x86", tb)
         return b
 
@@ -577,6 +598,7 @@ def execute(plan: dict) -> Result:
     read_seen = False
     modified_since_read = False
     res.cases = len(plan["ops"])
+    st_ = {}
     for oi, op in enumerate(plan["ops"]):
         try:
             if op[0] == "add":
@@ -673,6 +695,19 @@ def execute(plan: dict) -> Result:
                     res.probes["stale_cache_opportunity"] += 1
                     res.nontrivial = True
                 if kind in ("as_dict", "properties"):
+                    if oi % 3 != 1:
+                        # another live profile of the same process is looked at in between: every profile object answers for itself
+                        if "sib" not in st_:
+                            st_["sib"] = cp.C2Profile()
+                            st_["sib"].set_option("sleeptime", "777")
+                            st_["sib"].set_option("jitter", "13")
+                        sgot = _plain(st_["sib"].as_dict())
+                        res.probes["sibling_profile_read_in_between"] += 1
+                        if sgot != {"sleeptime": ["777"], "jitter": ["13"]}:
+                            res.violate(("C11", "history", "sibling_profile_dict_differs"),
+                                        f"a second profile object (sleeptime 777, jitter 13) read between the accesses of this history "
+                                        f"reports {sgot!r:.300}")
+                            break
                     view = prof.as_dict() if kind == "as_dict" else prof.properties
                     got = _plain(view)
                     # what a caller does with the dictionary it was handed: look up a path the profile does not have - KeyError,
